@@ -35,3 +35,5 @@ def run(out, sc, tier, seed):
     if sum(r.records for r in results) != len(recs):
         raise MachineryFailure("TLC consumed a different number of records than were produced")
     out.add_trace_results("8KiB-boundaries", results, recs)
+    from .common import run_witnesses
+    run_witnesses(out, sc, "C05")
